@@ -86,54 +86,10 @@ def blank_lines(ctx, report):
     # WebVTT --------------------------------------------------------------------------------
     from . import webvtt_cues
     webvtt_cues.blank_lines(ctx, report, "3")
-    # SRT and MicroDVD: collapse of doubled newlines between assembly and emission ---------------
-    for path, q, sep in (("pycaption/srt.py", "SRTWriter._recreate_lang", "\n"),
-                         ("pycaption/microdvd.py", "MicroDVDWriter._recreate_lang", "\n")):
-        f = idx.get_function(path, q)
-        report.covered(f)
-        # collapse constructs anywhere in the routine or the private helpers it calls
-        collapse = []      # (owner function, node, collapsed variable)
-        for f2, n in closure_nodes(idx, f, (ast.While, ast.Call)):
-            if isinstance(n, ast.While) and isinstance(n.test, ast.Compare) and isinstance(n.test.ops[0], ast.In) \
-                    and isinstance(n.test.left, ast.Constant) and n.test.left.value == sep * 2:
-                var = src(n.test.comparators[0])
-                body_ok = any(isinstance(s_, ast.Assign) and isinstance(s_.value, ast.Call) and
-                              isinstance(s_.value.func, ast.Attribute) and s_.value.func.attr == "replace" and
-                              [getattr(a_, "value", None) for a_ in s_.value.args] == [sep * 2, sep] and
-                              src(s_.targets[0]) == var and src(s_.value.func.value) == var for s_ in n.body)
-                if body_ok:
-                    collapse.append((f2, n, var))
-            if isinstance(n, ast.Call) and call_name(n) == "re.sub" and n.args and isinstance(n.args[0], ast.Constant) \
-                    and n.args[0].value in (r"\n+", r"\n{2,}", "\n+", "\n\n+") and len(n.args) >= 3:
-                collapse.append((f2, n, src(n.args[2])))
-        # emissions: additions to the accumulator the routine returns
-        rets = [n.value for n in walk_no_nested(f.node) if isinstance(n, ast.Return) and n.value is not None]
-        names = {x.id for r_ in rets for x in ast.walk(r_) if isinstance(x, ast.Name)}
-        aug = {src(n.target) for n in walk_no_nested(f.node) if isinstance(n, ast.AugAssign)}
-        cand = sorted(names & aug)
-        if len(cand) != 1:
-            raise AnalysisError(f"{q}: the accumulator returned by the routine is not recognised ({cand})")
-        acc = cand[0]
-        emits = [n for n in walk_no_nested(f.node) if isinstance(n, ast.AugAssign) and src(n.target) == acc]
-        if not emits:
-            raise AnalysisError(f"{q}: no emission into {acc}")
-        derived = []
-        for cf, cn, var in collapse:
-            for e_ in emits:
-                if cf is f:
-                    if re.search(r"(?<![\w.])" + re.escape(var) + r"(?![\w])", src(e_.value)) and cn.lineno < e_.lineno:
-                        derived.append(e_)
-                else:
-                    rv = [n.value for n in walk_no_nested(cf.node) if isinstance(n, ast.Return) and n.value is not None]
-                    returns_var = len(rv) == 1 and (src(rv[0]) == var or var in src(resolve_local(cf, rv[0])))
-                    txt = src(resolve_local(f, e_.value))
-                    if returns_var and re.search(r"\b" + re.escape(cf.name) + r"\(", txt):
-                        derived.append(e_)
-        ok = bool(collapse) and bool(derived)
-        report.check(ok, "R-BLANKLINE", f, "runs of line breaks are collapsed before the cue text is emitted",
-                     {"collapse_steps": [f"{cf.qualname}: {short(cn)}" for cf, cn, _ in collapse],
-                      "emissions_of_the_collapsed_text": [short(e_) for e_ in derived],
-                      "why": None if ok else "two consecutive BREAK nodes write an empty line, which ends the cue block"}, "3")
+    # SRT and MicroDVD: folded on runs of breaks (the spelling of the clean-up - a replace loop, a regex, a filter over the
+    # lines - is the writer's business)
+    from . import writer_doc_fold
+    writer_doc_fold.blank_lines(ctx, report, "3")
     # MicroDVD: breaks are pipes; the trailing `|\n` clean-up
     # DFXP / SAMI write <br/>
     for path, q in (("pycaption/dfxp/base.py", "DFXPWriter._recreate_text"), ("pycaption/dfxp/extras.py", "LegacyDFXPWriter._recreate_text"),
